@@ -1012,6 +1012,10 @@ pub const TEMPLATES: &[&str] = &[
     "#let f = (¦x¦)¦ =>¦ y¦ +=¦ a¦ *¦ b\n",
     "#let f = x¦ =>¦ return¦ a¦ and¦ b¦ or¦ c\n",
     "#let f = x¦ =>¦ -¦a¦ in¦ b\n",
+    // inline equations in running text, with delimited groups (their closing `$` shares the line)
+    "text $¦(¦a¦ +¦ b¦)¦$ more\n",
+    "$ vec¦(¦(¦a¦ +¦ b¦)¦,¦ c¦) $\n",
+    "- item $¦[¦a¦]¦$ tail\n",
 ];
 
 pub const TRIVIA: &[&str] = &[
@@ -1085,6 +1089,58 @@ pub fn exh_case(mut idx: u64) -> (String, Cfg, String) {
             }
             let plain_len = t.replace('¦', "").len();
             return (s, exh_cfg(k, plain_len), format!("tpl{} gap{} trivia{} cfg{}", ti, gap, tr, k));
+        }
+        idx -= per;
+    }
+    (String::new(), Cfg::default(), "out of range".into())
+}
+
+// ---------------------------------------------------------------------------------------------
+// G-exh2: the same templates with *two* nearby gaps filled at once (white space, line break, block
+// comment, line comment, blank line in each): decisions that depend on what stands at both edges of
+// a construct — padding after an opening delimiter *and* a comment before the closing one, a comment
+// on either side of an operator, a blank line before and a comment after an item.
+// ---------------------------------------------------------------------------------------------
+pub const PAIR_TRIVIA: &[&str] = &[" ", "\n", " /* c */ ", " // lc\n", "\n\n"];
+const PAIR_SPAN: usize = 4;
+const PAIR_CFGS: usize = 4;
+
+fn pair_count(g: usize) -> usize {
+    (0..g).map(|g1| (1..=PAIR_SPAN).filter(|d| g1 + d < g).count()).sum()
+}
+
+pub fn exh2_universe() -> u64 {
+    TEMPLATES.iter().map(|t| (pair_count(template_gaps(t)) * PAIR_TRIVIA.len() * PAIR_TRIVIA.len() * PAIR_CFGS) as u64).sum()
+}
+
+pub fn exh2_case(mut idx: u64) -> (String, Cfg, String) {
+    for (ti, t) in TEMPLATES.iter().enumerate() {
+        let g = template_gaps(t);
+        let per = (pair_count(g) * PAIR_TRIVIA.len() * PAIR_TRIVIA.len() * PAIR_CFGS) as u64;
+        if idx < per {
+            let k = 2 * (idx % PAIR_CFGS as u64) as usize;
+            let mut rest = idx / PAIR_CFGS as u64;
+            let t2 = (rest % PAIR_TRIVIA.len() as u64) as usize;
+            rest /= PAIR_TRIVIA.len() as u64;
+            let t1 = (rest % PAIR_TRIVIA.len() as u64) as usize;
+            let mut pi = (rest / PAIR_TRIVIA.len() as u64) as usize;
+            let (mut ga, mut gb) = (0usize, 1usize);
+            'outer: for g1 in 0..g {
+                for d in 1..=PAIR_SPAN {
+                    if g1 + d < g {
+                        if pi == 0 { ga = g1; gb = g1 + d; break 'outer; }
+                        pi -= 1;
+                    }
+                }
+            }
+            let mut s = String::new();
+            for (i, part) in t.split('¦').enumerate() {
+                if i > 0 && i - 1 == ga { s += PAIR_TRIVIA[t1]; }
+                if i > 0 && i - 1 == gb { s += PAIR_TRIVIA[t2]; }
+                s += part;
+            }
+            let plain_len = t.replace('¦', "").len();
+            return (s, exh_cfg(k, plain_len), format!("tpl{} gaps{}+{} trivia{}+{} cfg{}", ti, ga, gb, t1, t2, k));
         }
         idx -= per;
     }
